@@ -38,7 +38,7 @@ class StubCtx:
 
     def violation(self, w):
         if len(self.violations) < 8:
-            w = {k: v for k, v in w.items() if k not in ("bytes", "original")}
+            w = {k: v for k, v in w.items() if k not in ("bytes", "original") or len(str(v)) < 60000}
             self.violations.append(w)
 
     def inconc(self, msg):
